@@ -24,10 +24,14 @@ RULE = (
 ASSUMPTIONS = ["fake processes in the virtual lane", "when a cancel arrives while the time-limit kill sequence is still in progress either killed or cancelled is accepted"]
 
 
+QUICK_BUDGET = {"cases": 6000, "deadline_s": 90, "case_timeout_s": 120, "floors": {"final_states": 20000, "transitions": 40000, "logs_checked": 6000, "real_tasks": 20}}
+THOROUGH_FACTOR = 30  # thorough = the same workload with 30x the cases (floors scale along)
+
+
 def budget(tier):
-    if tier == "thorough":
-        return {"cases": 60000, "deadline_s": 700, "case_timeout_s": 120, "floors": {"final_states": 200000, "transitions": 400000, "logs_checked": 60000, "real_tasks": 300}}
-    return {"cases": 6000, "deadline_s": 90, "case_timeout_s": 120, "floors": {"final_states": 20000, "transitions": 40000, "logs_checked": 6000, "real_tasks": 20}}
+    from ..core import scaled_budget
+
+    return scaled_budget(QUICK_BUDGET, tier, THOROUGH_FACTOR, noscale=('real_tasks',))
 
 
 def gen_case(rng, idx, tier):
